@@ -367,3 +367,118 @@ class Product:
         if pos_split is None and do_split_here:
             pos_split = len(s)
         return s, pos_split, desc
+
+
+class SplitProduct:
+    """Two groups of matchers over w = c1 . c2 . r with the split placed at |c1| >= 1:
+      * early matchers run from position 0; recorded: the SET of early matchers whose language contains c1 (judged on
+        c1 alone: look-ahead sees the end of text), and whether maximal munch over the early group does NOT end the
+        first token at the split (`later`: some early matcher accepts at a later position, or none accepts at the split
+        in context);
+      * late matchers start AT the split; recorded: the set of late matchers that accepted at some position after it;
+      * the class (a byte of K, or 'o') of the last byte of c1 and of the first byte after the split.
+    Exhaustive exploration of the reachable product => results hold for all byte strings.  Configurations are kept
+    sparse (dead matchers dropped)."""
+
+    def __init__(self, early, late, K=()):
+        self.early, self.late = list(early), list(late)
+        masks = set()
+        for m in self.early + self.late:
+            masks |= m.n.masks
+        for k in K:
+            masks.add(1 << k)
+        self.reps, self.classes = byte_classes(sorted(masks))
+        self.K = set(K)
+
+    def _kc(self, c):
+        return c if c in self.K else 'o'
+
+    def explore(self, visit, limit=900000):
+        """visit(members: frozenset, later: bool, late_acc: frozenset, last_class, first_class) -> iterable of keys,
+        called at every reachable end of string after the split.  Returns (states, {key: (witness, split)})."""
+        early, late = self.early, self.late
+        init = (tuple((i, m.init) for i, m in enumerate(early)), None, None, None)
+        seen = {init: None}
+        frontier = [init]
+        found = {}
+        nstates = 0
+        syms = list(self.reps) + [END]
+
+        def record(keys, st):
+            for key in keys or ():
+                if key not in found:
+                    found[key] = self._wit(seen, st)
+
+        def step(confs, ms, c):
+            out = []
+            for i, cf in confs:
+                n = ms[i].step(cf, c)
+                if n is not None:
+                    out.append((i, n))
+            return tuple(out)
+        while frontier:
+            nxt = []
+            for st in frontier:
+                nstates += 1
+                if nstates > limit:
+                    raise Unsupported('product automaton larger than %d states' % limit)
+                ec, lc, fl, lastk = st
+                if fl is None:
+                    at0 = lastk is None
+                    for c in syms:
+                        if not at0:
+                            A = frozenset(i for i, cf in ec if early[i].accepts(cf, END))
+                            if A:
+                                broken = not any(early[i].accepts(cf, c) for i, cf in ec)
+                                if c == END:
+                                    record(visit(A, False, frozenset(), lastk, None), st)
+                                else:
+                                    e2 = () if broken else step(ec, early, c)
+                                    l2 = tuple((j, n) for j, n in ((j, m.step(m.init, c)) for j, m in enumerate(late)) if n is not None)
+                                    ns = (e2, l2, (A, broken, frozenset(), lastk, self._kc(c)), None)
+                                    if ns not in seen:
+                                        seen[ns] = (st, c, True)
+                                        nxt.append(ns)
+                        if c != END:
+                            e2 = step(ec, early, c)
+                            if e2:
+                                ns = (e2, None, None, self._kc(c))
+                                if ns not in seen:
+                                    seen[ns] = (st, c, False)
+                                    nxt.append(ns)
+                    continue
+                A, later, LA, lk, fk = fl
+                for c in syms:
+                    lat2 = later or any(early[i].accepts(cf, c) for i, cf in ec)
+                    acc = [j for j, cf in lc if late[j].accepts(cf, c)]
+                    LA2 = (LA | frozenset(acc)) if acc else LA
+                    if c == END:
+                        record(visit(A, lat2, LA2, lk, fk), st)
+                        continue
+                    e2 = () if lat2 else step(ec, early, c)
+                    l2 = step(lc, late, c)
+                    if not e2 and not l2 and not lat2:
+                        continue                                  # nothing can change any more and no fusion was seen
+                    ns = (e2, l2, (A, lat2, LA2, lk, fk), None)
+                    if ns not in seen:
+                        seen[ns] = (st, c, False)
+                        nxt.append(ns)
+            frontier = nxt
+        return nstates, found
+
+    def _wit(self, seen, st):
+        path = []
+        cur = st
+        while seen[cur] is not None:
+            prev, c, ds = seen[cur]
+            path.append((c, ds))
+            cur = prev
+        path.reverse()
+        s = bytes(c for c, _ in path)
+        split = None
+        for i, (c, ds) in enumerate(path):
+            if ds:
+                split = i
+        if split is None:
+            split = len(s)
+        return s, split
